@@ -35,26 +35,15 @@ def _worker(args):
 
 
 def load_findings():
-    p = os.path.join(env.VERIF, "known_findings.json")
-    if not os.path.exists(p):
-        return {"known": [], "fixed": []}
-    return json.load(open(p))
+    from . import findings
+
+    return findings.load()
 
 
-def match_known(v: dict, findings: dict):
-    for k in findings.get("known", []):
-        if k["property"] != v["property"] or k["oracle"] != v["oracle"]:
-            continue
-        if k.get("op") and k["op"] != v["op"]:
-            continue
-        if not set(k.get("tags_all", [])) <= set(v.get("tags", [])):
-            continue
-        if k.get("exc") and k["exc"] != v.get("exc"):
-            continue
-        if k.get("msg_contains") and k["msg_contains"] not in v["msg"]:
-            continue
-        return k
-    return None
+def match_known(v, f=None):
+    from . import findings
+
+    return findings.match_known(v, f)
 
 
 class Agg:
@@ -72,6 +61,7 @@ class Agg:
         self.harness = []
         self.samples = []
         self.restarts = 0
+        self.known = {}
 
     def add(self, r):
         self.runs += 1
@@ -89,6 +79,8 @@ class Agg:
             self.states.add(r["final_hash"])
             self.shapes.add(r["shape"])
         self.restarts += r.get("restarts", 0)
+        for k, n in r.get("known_hits", {}).items():
+            self.known[k] = self.known.get(k, 0) + n
         for v in r.get("violations", []):
             self.viol.append((r["idx"], v))
         if r.get("harness_error"):
